@@ -7,6 +7,7 @@ CONSTANTS
   Mins <- TNone
   ValClasses <- TNone
   VModes <- TNone
+  Dists <- TNone
   Orig = FALSE
 POSTCONDITION AllConsumed
 CHECK_DEADLOCK FALSE
